@@ -32,11 +32,21 @@ def plan(tier, pid="C01"):
     return out
 
 
+RESPEC_PAIRS = [("spot1+fut", "respec"), ("respec", "spot1+fut")]
+
+
 def _unit(u):
     universe, fee, depth, rate, scale, deposit, first = u
+    prior = None
+    if "<" in universe:
+        # "B<A": universe A is explored first IN THIS PROCESS, then B, which re-uses A's contract symbols with other specifications;
+        # only B's exploration is reported (A has its own unit)
+        universe, prior = universe.split("<")
+        ledger.bfs(prior, fee, depth, scale, deposit, ledger.alphabet(), rate=rate)
     r = ledger.bfs(universe, fee, depth, scale, deposit, ledger.alphabet(ncontracts=len(ledger.contracts_of(universe))), rate=rate, first_ops=first)
     r["unit"] = (universe, fee, depth, rate)
     r["split"] = first is not None
+    r["prior"] = prior
     return r
 
 
@@ -52,6 +62,8 @@ def run(tier, pid):
                 units.append((u, f, d, rt, ledger.unit_scale(u, scale), deposit, [op]))
         else:
             units.append((u, f, d, rt, ledger.unit_scale(u, scale), deposit, None))
+    for a, b_ in RESPEC_PAIRS:
+        units.append(("%s<%s" % (b_, a), ledger.FEES[0], 2 if tier == "quick" else 3, 0.0, scale, deposit, None))
     samples = []
     per_unit = []
     merged = {}
@@ -89,7 +101,9 @@ def run(tier, pid):
                 continue
             case = {"universe": r["unit"][0], "fee": list(r["unit"][1]), "scale": ledger.unit_scale(r["unit"][0], scale), "rate": r["unit"][3],
                     "deposit": deposit, "history": [list(o) for o in hist]}
-            rep.violation(case, "%s after history %s: %s" % (r["unit"][0], list(hist), msg),
+            if r.get("prior"):
+                case["prior_universe"] = r["prior"]
+            rep.violation(case, "%s%s after history %s: %s" % (r["unit"][0], " (explored after %s in the same process)" % r["prior"] if r.get("prior") else "", list(hist), msg),
                           group=(r["unit"][0], msg.split(" ")[0], len(hist)))
     if pid == "C05":
         from mcx.checks import c05snap
@@ -108,6 +122,7 @@ def run(tier, pid):
     ])
     rep.assumptions = [
         "quotes 0 < bid <= ask from a 4-entry palette per contract; trades of +-1/+-2 lots and 3 rebalance targets",
+        "two units explore a universe right after another one that uses the same contract symbols with other specifications, in one process (both orders)",
         "interest accrued during rebalances is taken from Rebalancing.profit_on_idle_cash (its amount is C06's subject); rate book is 0 except in the units marked rate=0.05",
         "state key = every field Broker methods read (cash, positions, margins, reference prices, books, last accrual); quote history and track record dropped",
         "numeric comparison: exact Fraction reference vs float implementation within 1e-9 relative",
@@ -119,6 +134,9 @@ def replay(case, pid=None):
     if case.get("part") == "snap":
         from mcx.checks import c05snap
         return c05snap.replay(case)
+    if case.get("prior_universe"):
+        # the counterexample needs an earlier simulation in the same process on contracts with the same symbols
+        ledger.bfs(case["prior_universe"], tuple(case["fee"]), max(2, len(case["history"])), case["scale"], case["deposit"], ledger.alphabet(), rate=case.get("rate", 0.0))
     out = ledger.replay_history(case["universe"], tuple(case["fee"]), case["scale"], case["deposit"], case["history"],
                                 rate=case.get("rate", 0.0))
     return ["%s step %d: %s" % (p, i, m) for p, i, m in out if pid is None or p == pid]
